@@ -174,7 +174,7 @@ def shard(ctx, acc):
                      sample=dict(options=list(seq), declared=[t for t, v in case['presence'].items() if v]))
             n += 1
     acc.add_extra('exhaustive_sequences', n)
-    total = 1500 if ctx.quick else 60000
+    total = 1500 if ctx.quick else 250000
     strat = st.builds(
         lambda s, pv, v: dict(seq=s, presence=presence_vec(pv), variant=v),
         st.lists(st.sampled_from(opts), min_size=3, max_size=8), st.integers(0, 31),
